@@ -100,10 +100,34 @@ fn literal(src: &mut Src, kind: char) -> String {
     }
 }
 
+/// calls whose intermediate results are BLS12-381 elements (which have no serialised constant form)
+const BLS_CHAINS: &[&str] = &[
+    "builtin.bls12_381_g1_compress(builtin.bls12_381_g1_hash_to_group(B, B))",
+    "builtin.bls12_381_g2_compress(builtin.bls12_381_g2_hash_to_group(B, B))",
+    "builtin.bls12_381_g1_equal(builtin.bls12_381_g1_hash_to_group(B, B), builtin.bls12_381_g1_hash_to_group(B, B))",
+    "builtin.bls12_381_g1_compress(builtin.bls12_381_g1_add(builtin.bls12_381_g1_hash_to_group(B, B), builtin.bls12_381_g1_hash_to_group(B, B)))",
+    "builtin.bls12_381_g1_compress(builtin.bls12_381_g1_scalar_mul(I, builtin.bls12_381_g1_hash_to_group(B, B)))",
+    "builtin.bls12_381_g1_compress(builtin.bls12_381_g1_neg(builtin.bls12_381_g1_hash_to_group(B, B)))",
+    "builtin.bls12_381_g2_compress(builtin.bls12_381_g2_neg(builtin.bls12_381_g2_hash_to_group(B, B)))",
+    "builtin.bls12_381_final_verify(builtin.bls12_381_miller_loop(builtin.bls12_381_g1_hash_to_group(B, B), builtin.bls12_381_g2_hash_to_group(B, B)), builtin.bls12_381_miller_loop(builtin.bls12_381_g1_hash_to_group(B, B), builtin.bls12_381_g2_hash_to_group(B, B)))",
+];
+
 fn folder_source(src: &mut Src) -> String {
-    let (name, kinds) = *src.pick(FOLDABLE);
-    let args: Vec<String> = kinds.iter().map(|k| literal(src, *k)).collect();
-    let call = format!("builtin.{name}({})", args.join(", "));
+    let call = if src.chance(1, 6) {
+        let mut text = String::new();
+        for ch in src.pick(BLS_CHAINS).chars() {
+            match ch {
+                'B' => text.push_str(&literal(src, 'b')),
+                'I' => text.push_str(&literal(src, 'i')),
+                c => text.push(c),
+            }
+        }
+        text
+    } else {
+        let (name, kinds) = *src.pick(FOLDABLE);
+        let args: Vec<String> = kinds.iter().map(|k| literal(src, *k)).collect();
+        format!("builtin.{name}({})", args.join(", "))
+    };
     match src.below(3) {
         // in a function body
         0 => format!("use aiken/builtin\n\npub fn entry(a: Int) -> Data {{\n  let r = {call}\n  let d: Data = r\n  d\n}}\n"),
@@ -111,6 +135,113 @@ fn folder_source(src: &mut Src) -> String {
         1 => format!("use aiken/builtin\n\npub fn entry(a: Int) -> Data {{\n  if a == 12345 {{\n    let r = {call}\n    let d: Data = r\n    d\n  }} else {{\n    let d: Data = a\n    d\n  }}\n}}\n"),
         // in a module constant
         _ => format!("use aiken/builtin\n\nconst k = {call}\n\npub fn entry(a: Int) -> Data {{\n  let d: Data = k\n  d\n}}\n"),
+    }
+}
+
+/// A compiled program must have a serialised form (it is what ends up in the blueprint).
+fn encodable(program: &Program<NamedDeBruijn>, input: &serde_json::Value) -> CheckResult {
+    let db: Program<uplc::ast::DeBruijn> = program.clone().into();
+    match no_panic(|| db.to_cbor()).map_err(|pn| panic_failure("to_cbor(compiled)", pn, input.clone()))? {
+        Ok(_) => Ok(()),
+        Err(e) => Err(Failure::new("compiled-program-not-encodable", json!({"input": input, "error": format!("{e:?}").chars().take(200).collect::<String>()}))),
+    }
+}
+
+/// (builtin, parameter types, result type, sample arguments in terms of `a: Int`)
+const FIRST_CLASS: &[(&str, &[&str], &str, &[&str])] = &[
+    ("add_integer", &["Int", "Int"], "Int", &["a", "3"]),
+    ("subtract_integer", &["Int", "Int"], "Int", &["a", "3"]),
+    ("multiply_integer", &["Int", "Int"], "Int", &["a", "3"]),
+    ("divide_integer", &["Int", "Int"], "Int", &["7", "a"]),
+    ("mod_integer", &["Int", "Int"], "Int", &["7", "a"]),
+    ("equals_integer", &["Int", "Int"], "Bool", &["a", "1"]),
+    ("less_than_integer", &["Int", "Int"], "Bool", &["a", "1"]),
+    ("append_bytearray", &["ByteArray", "ByteArray"], "ByteArray", &["#\"00\"", "#\"ff\""]),
+    ("cons_bytearray", &["Int", "ByteArray"], "ByteArray", &["a", "#\"ff\""]),
+    ("index_bytearray", &["ByteArray", "Int"], "Int", &["#\"0102\"", "a"]),
+    ("length_of_bytearray", &["ByteArray"], "Int", &["#\"0102\""]),
+    ("equals_bytearray", &["ByteArray", "ByteArray"], "Bool", &["#\"00\"", "#\"00\""]),
+    ("sha2_256", &["ByteArray"], "ByteArray", &["#\"00\""]),
+    ("cons_list", &["Int", "List<Int>"], "List<Int>", &["a", "[1, 2]"]),
+    ("head_list", &["List<Int>"], "Int", &["[a, 2]"]),
+    ("tail_list", &["List<Int>"], "List<Int>", &["[a, 2]"]),
+    ("null_list", &["List<Int>"], "Bool", &["[a]"]),
+    ("i_data", &["Int"], "Data", &["a"]),
+    ("un_i_data", &["Data"], "Int", &["builtin.i_data(a)"]),
+    ("b_data", &["ByteArray"], "Data", &["#\"00\""]),
+    ("un_b_data", &["Data"], "ByteArray", &["builtin.b_data(#\"00\")"]),
+    ("list_data", &["List<Data>"], "Data", &["[builtin.i_data(a)]"]),
+    ("un_list_data", &["Data"], "List<Data>", &["builtin.list_data([])"]),
+    ("constr_data", &["Int", "List<Data>"], "Data", &["a", "[]"]),
+    ("un_constr_data", &["Data"], "Pair<Int, List<Data>>", &["builtin.constr_data(a, [])"]),
+    ("equals_data", &["Data", "Data"], "Bool", &["builtin.i_data(a)", "builtin.i_data(1)"]),
+    ("serialise_data", &["Data"], "ByteArray", &["builtin.i_data(a)"]),
+    ("new_pair", &["Data", "Data"], "Pair<Data, Data>", &["builtin.i_data(a)", "builtin.i_data(1)"]),
+    ("fst_pair", &["Pair<Int, Int>"], "Int", &["Pair(a, 2)"]),
+    ("snd_pair", &["Pair<Int, Int>"], "Int", &["Pair(a, 2)"]),
+    ("if_then_else", &["Bool", "Int", "Int"], "Int", &["a == 1", "a", "3"]),
+    ("debug", &["String", "Int"], "Int", &["@\"t\"", "a"]),
+    ("choose_list", &["List<Int>", "Int", "Int"], "Int", &["[a]", "1", "2"]),
+    ("append_string", &["String", "String"], "String", &["@\"a\"", "@\"b\""]),
+    ("encode_utf8", &["String"], "ByteArray", &["@\"a\""]),
+    ("decode_utf8", &["ByteArray"], "String", &["#\"61\""]),
+];
+
+fn to_data_tail(ret: &str, v: &str) -> String {
+    match ret {
+        "String" => format!("  let d: Data = builtin.encode_utf8({v})\n  d\n"),
+        "Pair<Int, List<Data>>" => format!("  let d: Data = {v}.1st\n  d\n"),
+        "Pair<Data, Data>" => format!("  {v}.1st\n"),
+        "Data" => format!("  {v}\n"),
+        _ => format!("  let d: Data = {v}\n  d\n"),
+    }
+}
+
+fn function_value_source(src: &mut Src) -> String {
+    match src.weighted(&[5, 3, 2, 2]) {
+        // a builtin handed to a higher-order helper (or bound first, or partially wrapped)
+        0 => {
+            let (name, params, ret, args) = *src.pick(FIRST_CLASS);
+            let ps: Vec<String> = params.iter().enumerate().map(|(i, t)| format!("x{i}: {t}")).collect();
+            let xs: Vec<String> = (0..params.len()).map(|i| format!("x{i}")).collect();
+            let sig = format!("fn({}) -> {ret}", params.join(", "));
+            let helper = format!("fn ap(h: {sig}, {}) -> {ret} {{\n  h({})\n}}\n", ps.join(", "), xs.join(", "));
+            let call = match src.below(3) {
+                0 => format!("  let r = ap(builtin.{name}, {})\n", args.join(", ")),
+                1 => format!("  let h: {sig} = builtin.{name}\n  let r = ap(h, {})\n", args.join(", ")),
+                _ => format!("  let h = if a == 99 {{\n    builtin.{name}\n  }} else {{\n    builtin.{name}\n  }}\n  let r = h({})\n", args.join(", ")),
+            };
+            format!("use aiken/builtin\n\n{helper}\npub fn entry(a: Int) -> Data {{\n{call}{}}}\n", to_data_tail(ret, "r"))
+        }
+        // functions chosen by a conditional and called at once
+        1 => {
+            let n = src.below(3);
+            let params: Vec<String> = (0..n).map(|i| format!("p{i}: Int")).collect();
+            let body = |k: usize| if n == 0 { format!("{k}") } else { format!("{k} + {}", (0..n).map(|i| format!("p{i}")).collect::<Vec<_>>().join(" + ")) };
+            let args: Vec<String> = (0..n).map(|i| if i == 0 { "a".to_string() } else { i.to_string() }).collect();
+            let chooser = match src.below(3) {
+                0 => "if a > 0 {\n    f\n  } else {\n    g\n  }".to_string(),
+                1 => "when a is {\n    0 -> f\n    _ -> g\n  }".to_string(),
+                _ => "{\n    let h = if a > 0 {\n      f\n    } else {\n      g\n    }\n    h\n  }".to_string(),
+            };
+            format!(
+                "fn f({ps}) -> Int {{\n  {}\n}}\n\nfn g({ps}) -> Int {{\n  {}\n}}\n\npub fn entry(a: Int) -> Data {{\n  let r = ({chooser})({})\n  let d: Data = r\n  d\n}}\n",
+                body(1),
+                body(2),
+                args.join(", "),
+                ps = params.join(", ")
+            )
+        }
+        // a function returned from a function, called at once or after being bound
+        2 => {
+            let call = *src.pick(&["pick(a)(a)", "{\n    let h = pick(a)\n    h(a)\n  }", "{\n    let h = pick(a)\n    if a == 7 {\n      0\n    } else {\n      h(a) + h(1)\n    }\n  }"]);
+            format!("fn f(x: Int) -> Int {{\n  x + 1\n}}\n\nfn g(x: Int) -> Int {{\n  x * 2\n}}\n\nfn pick(n: Int) -> fn(Int) -> Int {{\n  if n > 0 {{\n    f\n  }} else {{\n    g\n  }}\n}}\n\npub fn entry(a: Int) -> Data {{\n  let r = {call}\n  let d: Data = r\n  d\n}}\n")
+        }
+        // anonymous functions without arguments
+        _ => {
+            let call = *src.pick(&["(fn() { a + 1 })()", "{\n    let k = fn() { a + 1 }\n    k()\n  }", "(if a > 0 {\n    fn() { 1 }\n  } else {\n    fn() { 2 }\n  })()"]);
+            format!("pub fn entry(a: Int) -> Data {{\n  let r = {call}\n  let d: Data = r\n  d\n}}\n")
+        }
     }
 }
 
@@ -257,6 +388,50 @@ pub fn run(cx: &mut Cx) -> String {
                     let args = vec![uplc::ast::Data::integer(a.into())];
                     let _ = no_panic(|| crate::aik::eval_with_args(&c.program, &args)).map_err(|pn| panic_failure("eval(compiled)", pn, input.clone()))?;
                 }
+                encodable(&c.program, &input)?;
+                st.nontrivial(&source);
+                st.sample(|| input.clone());
+                Ok(())
+            }
+        }
+    });
+
+    // (g) functions as values: builtins passed to higher-order helpers, functions picked by a
+    // conditional and then called, functions kept in tuples
+    cx.prop("compile-function-values", tier.of(12_000, 300_000), 60, |src, st| {
+        st.eval();
+        let source = function_value_source(src);
+        let tracing = *src.pick(&[Tracing::All(TraceLevel::Silent), Tracing::All(TraceLevel::Verbose)]);
+        let input = json!({"source": source, "tracing": format!("{tracing:?}")});
+        match c01::compile_entry(&source, tracing) {
+            CompileOutcome::Panic((msg, loc)) => Err(Failure::new(panic_signature("compile", &msg, &loc), json!({"panic": msg, "at": loc, "input": input}))),
+            CompileOutcome::Rejected(e) => {
+                st.class("function-values:rejected-by-checker");
+                if std::env::var("VERIF_SHOW_REJECTS").is_ok() {
+                    eprintln!("{source}\n{e:?}");
+                }
+                Ok(())
+            }
+            CompileOutcome::FreeUnique(e) => Err(Failure::new("compiled-program-has-free-variable", json!({"error": e, "input": input}))),
+            CompileOutcome::Ok(c) => {
+                st.class("function-values:compiled");
+                for a in [0i64, 1, 7] {
+                    let args = vec![uplc::ast::Data::integer(a.into())];
+                    let post = no_panic(|| crate::aik::eval_with_args(&c.program, &args)).map_err(|pn| panic_failure("eval(compiled)", pn, input.clone()))?;
+                    // the optimiser must not change the outcome either (kept here because these
+                    // shapes are not produced by the typed generator of C02)
+                    if let Some(pre) = &c.pre {
+                        let pre = no_panic(|| crate::aik::eval_with_args(pre, &args)).map_err(|pn| panic_failure("eval(pre-optimisation)", pn, input.clone()))?;
+                        let show = |o: &crate::aik::Outcome| match o {
+                            crate::aik::Outcome::Value(t) => format!("value {}", t.to_pretty()),
+                            crate::aik::Outcome::Error(k, _) => format!("error {k}"),
+                        };
+                        if show(&pre.0) != show(&post.0) && !matches!((&pre.0, &post.0), (crate::aik::Outcome::Error(..), crate::aik::Outcome::Error(..))) {
+                            return Err(Failure::new("function-values:optimiser-changes-outcome", json!({"input": input, "argument": a, "pre_optimisation": show(&pre.0), "post_optimisation": show(&post.0)})));
+                        }
+                    }
+                }
+                encodable(&c.program, &input)?;
                 st.nontrivial(&source);
                 st.sample(|| input.clone());
                 Ok(())
